@@ -238,6 +238,24 @@ def run_case(case):
         st = structure(back)
         if st == intended:
             outcomes.append(f"{cname}:exact")
+            # the same line read back as part of a whole calendar (unfolding of the complete text, not of one line): value and
+            # parameter values as intended - judged only where the placeholder finding cannot interfere
+            if line is not None and not R.ph_triggered(str(line)) and not unrepresentable:
+                try:
+                    got_v = back.subcomponents[0][name]
+                    got_v = got_v[0] if isinstance(got_v, list) else got_v
+                    got_p = {k: norm_param(x) for k, x in got_v.params.items()}
+                    gtext = str(got_v)
+                    if wrap not in WRAPS:
+                        ok_v = True
+                    elif type(got_v).__name__ == "vText":      # read as TEXT: the decoded value (what was written was TEXT-escaped iff wrap is vText)
+                        ok_v = gtext in (R.expected_decodes(s) if wrap == "vText" else {R.spec_unescape(s)} | R.expected_decodes(R.spec_unescape(s)))
+                    else:                                        # read raw (URI, CAL-ADDRESS, ...): the wire text itself
+                        ok_v = gtext == val_text
+                    if got_p != intended_params or ok_v is False:
+                        fails.append(fail(f"tree:{cname}:value-or-parameter-values-differ", case, (intended_params, val_text), (got_p, gtext)))
+                except Exception as e:  # noqa: BLE001
+                    fails.append(fail(f"tree:{cname}:value-not-readable", case, "the property", f"{type(e).__name__}: {e}"))
         elif st == without and cname == "VEVENT" and len(back.subcomponents[0].errors) == 1:
             outcomes.append("VEVENT:rejected-alone")
         else:
@@ -325,6 +343,17 @@ def run(ctx):
                 for name, v in (("X-A", "v"), ("ATTENDEE", "a,b;c")):
                     yield ("c", name, pshape, ps, "vText", v)
 
+    def gen_blank():
+        # (G) long runs of blanks in a value / a parameter value: once folded, a physical line may hold white space only
+        for pad in list(range(0, 12)) + list(range(55, 80)):
+            for n in (1, 2, 63, 73, 74, 75, 147, 160):
+                for blanks in (" " * n, "\t" * n):
+                    for txt in ("x" * pad + blanks, "x" * pad + blanks + "end", blanks + "x" * pad):
+                        yield ("c", "X-A", 0, "", "vText", txt)
+                        yield ("c", "SUMMARY", 1, "p", "vUri", txt)
+                        if "\t" not in blanks:
+                            yield ("c", "X-A", 1, txt, "vText", "v")
+
     def gen_names():
         # (E) every property name whose value is free text / a URI / an address: no name may have its own idea of delimiters
         for name in STRING_NAMES:
@@ -335,3 +364,4 @@ def run(ctx):
     ctx.explore("join/split + tree", gen, run_case)
     ctx.explore("every string-valued property name", gen_names, run_case)
     ctx.explore("list-valued parameters", gen_lists, run_case)
+    ctx.explore("long runs of blanks", gen_blank, run_case)
